@@ -10,7 +10,7 @@ RULE = (
     "Generated (Hypothesis): histories as for C20 (1..40 quick / 1..120 thorough commands; observers that unsubscribe "
     "themselves / another observer / subscribe a new observer inside their k-th callback) on a BehaviorSubject whose "
     "initial value is drawn from the full value domain (None weighted up, all falsy values). Enumerated: every command "
-    "sequence of length <= 4 (quick) / <= 5 (thorough) over an 11-symbol alphabet for initial values None and 1. "
+    "sequence of length <= 4 with initial value None (quick) / <= 5 with initial values None and 1 (thorough) over an 11-symbol alphabet. "
     "Oracle: explicit model = C20 model + current value (set when on_next is *called*, before delivery); a subscriber on "
     "a live subject first receives the current value, then every later notification; after termination only the terminal; "
     "compared after EVERY command (received lists, exceptions, length of subject.observers). Non-trivial: some subscriber "
@@ -42,12 +42,16 @@ def _run(case):
 
 
 def _enum(tier):
-    return enumerate_histories(_ALPHABET, [{"init": "none"}, {"init": "i1"}], 4 if tier == "quick" else 5)
+    if tier == "quick":
+        return enumerate_histories(_ALPHABET, [{"init": "none"}], 4)
+    return enumerate_histories(_ALPHABET, [{"init": "none"}, {"init": "i1"}], 5)
 
 
 def checks(tier):
     n = 40 if tier == "quick" else 120
     return [
-        Check("enum", _run, cases=_enum, shards={"quick": 4, "thorough": 16}, exhaustive=True),
+        Check("enum", _run, cases=_enum, shards={"quick": 8, "thorough": 16}, exhaustive=True),
         Check("gen", _run, strategy=histories("behavior", n), examples={"quick": 4000, "thorough": 16 * 20000}, shards={"quick": 4, "thorough": 16}),
+        # last on purpose: a failure here must not cut the two searches above short
+        Check("falsy_error", _run, strategy=histories("behavior", 12, falsy_error=True), examples={"quick": 400, "thorough": 16 * 1000}, shards={"quick": 1, "thorough": 16}),
     ]
